@@ -91,6 +91,14 @@ def run(tier, seed, replay):
         over = [["max_width", w]] + PRESETS[pr]
         cases.append({"text": texts[tk], "config": pool.merged(p["header"], over), "again": True, "lex": False})
         meta.append((p["id"], lay, pr, w))
+    # the synthetic forms of C01 (statement / pattern / expression / item forms x layout presets x every width)
+    if not replay or json.load(open(replay)).get("pool_id", "").startswith("synth/"):
+        from . import c01
+        for name, si, w, text, cfg in c01.synth_cases(tier, seed + 3):
+            if replay and ("synth/" + name != rp["pool_id"] or str(rp["width"]) != w or rp["preset"] != "syn%d" % si):
+                continue
+            cases.append({"text": text, "config": cfg, "again": True, "lex": False})
+            meta.append(("synth/" + name, "orig", "syn%d" % si, w))
     res = common.run_vh_pool("pool", cases, per_case_timeout=15)
     n_acc = 0
     nontrivial = set()
@@ -123,7 +131,7 @@ def run(tier, seed, replay):
                       "C02 pass fixed-point theorems no longer check", no_input=True)
     rep.coverage.update({
         "evaluations": len(cases), "accepted_and_reformatted": n_acc, "distinct_nontrivial": len(nontrivial),
-        "rule": "fixed grid: committed pool (%d programs) x layouts %s (re-layouts rewrite only existing white-space tokens, deterministically per program) x presets %s x max_width %s; thorough = the whole grid, quick = the 1/%d slice selected by the seed; each accepted output is formatted again under the same configuration and must be byte-identical and accepted; non-trivial = first pass changed the text; distinct by (program, layout, config)" % (len(P), layouts, presets, widths, MOD),
+        "rule": "fixed grid: committed pool (%d programs) x layouts %s (re-layouts rewrite only existing white-space tokens, deterministically per program) x presets %s x max_width %s; thorough = the whole grid, quick = the 1/%d slice selected by the seed; plus the synthetic forms stream of C01 (statement / pattern / expression / item forms x 6 layout presets x every max_width 20..130; quick: one width in six); each accepted output is formatted again under the same configuration and must be byte-identical and accepted; non-trivial = first pass changed the text; distinct by (program, layout, config)" % (len(P), layouts, presets, widths, MOD),
         "samples": samples or [{"note": "no case changed the text"}],
         "programs": len(P),
         "timeouts": sum(1 for r in res if isinstance(r, dict) and "timeout" in r),
